@@ -837,6 +837,11 @@ impl<'a> FnCx<'a> {
                     "INFINITY" | "NEG_INFINITY" | "NAN" | "MAX" | "MIN" | "MIN_POSITIVE" | "EPSILON" => {
                         Ok((L::raw(format!("F64.{}", last)), Ty::F64))
                     }
+                    "MANTISSA_DIGITS" => Ok((int_lit(53, &int_ty("u32").unwrap()), int_ty("u32").unwrap())),
+                    "RADIX" => Ok((int_lit(2, &int_ty("u32").unwrap()), int_ty("u32").unwrap())),
+                    "DIGITS" => Ok((int_lit(15, &int_ty("u32").unwrap()), int_ty("u32").unwrap())),
+                    "MAX_EXP" => Ok((int_lit(1024, &int_ty("i32").unwrap()), int_ty("i32").unwrap())),
+                    "MIN_EXP" => Ok((int_lit(-1021, &int_ty("i32").unwrap()), int_ty("i32").unwrap())),
                     _ => Err(format!("f64::{}", last)),
                 }
             }
@@ -853,6 +858,10 @@ impl<'a> FnCx<'a> {
         }
         if let Some(t) = int_ty(head) {
             return match last {
+                "BITS" => {
+                    let b = match t { Ty::Int(_, b, _) => b, _ => 0 };
+                    Ok((int_lit(b as i128, &int_ty("u32").unwrap()), int_ty("u32").unwrap()))
+                }
                 "MAX" | "MIN" => Ok((L::raw(format!("(IntN.{} : {})", last, t.lean())), t)),
                 _ => Err(format!("{}::{}", head, last)),
             };
